@@ -1,7 +1,11 @@
-"""C10: incremental APIs -- the state-relocation clause.
+"""C10: incremental APIs -- the state-relocation clause and two structural conditions of the buffering clauses.
 R10: a state that the headers declare copyable as a memory fragment never stores a pointer derived from the state
-itself, from a local object or from the scratch stack.  (Chunking equivalence and get-then-continue are value
-statements and are declined.)"""
+itself, from a local object or from the scratch stack.
+R10.3 (sa/sb.py): a Get/Verify step writes no scalar state field that another function of its family reads before
+writing (necessary for get-then-continue).
+R10.4 (sa/sb.py): Step functions that implement the same buffering for different data operations (bashPrg
+Absorb/Squeeze/Encr/Decr, belt CFB/ECB/BDE E/D) have identical branch/loop conditions and state updates.
+(Chunking equivalence and the equality of results are value statements and are declined.)"""
 import os, re
 from . import ir, vp
 from .ir import AnalysisBroken, strip, walk, show, root_ref
@@ -98,14 +102,25 @@ def run(tier, seed=0):
                                detail="`%s`: %s" % (show(n)[:60], "null" if cls == "null" else
                                                     "caller-owned buffer (documented to stay valid); independent of the state's address"))
             # raw copies of addresses into the state are not used by the tree; a memCopy of &local into a state would be flagged here
+    from . import sb
+    nget = sb.check_get_steps(prog, res, "R10.3-get-does-not-disturb")
+    res.floor("Get/Verify steps", nget, 25)
+    nsib = sb.check_sibling_steps(prog, res, "R10.4-sibling-steps-buffer-identically")
+    res.floor("sibling Step functions", nsib, 10)
     res.coverage["pointer_fields"] = sorted("%s.%s" % x for x in ptr_fields)
     res.coverage["pointer_stores_checked"] = nstores
     res.coverage["explanation"] = (
         "Type inventory of the %d state structs of the families whose headers declare the state copyable as a memory "
         "fragment (belt.h, brng.h, botp.h): %d pointer-typed field(s); every assignment to such a field in the owning "
         "units is classified by the origin of the stored address (state itself / local / scratch stack = violation; "
-        "caller-owned / null = fine). A struct without pointer fields cannot break the relocation clause. Chunking "
-        "equivalence and Get-then-continue quantify over values and are declined." % (len(recs), nptr))
+        "caller-owned / null = fine). A struct without pointer fields cannot break the relocation clause. "
+        "R10.3: for every family of functions over one state structure, per-path field-use analysis gives the scalar "
+        "fields each function writes and those it reads before writing; a Get/Verify step (names Step[GV]n) may not "
+        "write a field that another function of the family reads before writing (generator steps of botp/KRP, which "
+        "advance the state by design, are tabled with reasons). R10.4: sibling cross-check of the buffering skeleton "
+        "(conditions and scalar state updates in order, locals renamed, data operations abstracted) inside four frozen "
+        "groups of Step functions. Equality of chunked and one-shot results is a value "
+        "statement and is declined." % (len(recs), nptr))
     res.assumptions = COMMON_ASSUMPTIONS + [
         "addresses are stored into states only through typed pointer fields (no memCopy of an address into state bytes occurs in the tree)",
         "a caller-owned buffer whose address is kept (brng HMAC long IV) must stay valid by the header's own wording",
